@@ -22,6 +22,9 @@ import vcommon
 
 MIRI_TARGET = "armv7-unknown-linux-gnueabihf"
 MIRIFLAGS = "-Zmiri-disable-isolation -Zmiri-disable-stacked-borrows -Zmiri-permissive-provenance"
+# Known generator defect (known_findings.json): fixed-length list with heap elements in an import
+# parameter lowered to memory; its elements are dropped before the import is called.
+SIG_FIXED_LIST_UAF = "rust-mem:use-after-free:import:fixed-list-with-heap-elements-lowered-to-memory"
 
 TIERS = {
     # worlds, native value sets per profile, miri worlds, miri sets, valgrind worlds, big-list size
@@ -183,6 +186,7 @@ def classify_crash(rc, stderr, platform):
     ctx = last_ctx(stderr)
     d = ctx.get("dir", "?")
     shape = focus(ctx.get("shape", "?"))
+    fixed_list_import = d == "import" and "flh<" in ctx.get("shape", "")
     where = "%s `%s` phase %s (call %s, world %s, %s)" % (d, ctx.get("func"), ctx.get("phase"), ctx.get("call"), ctx.get("world"), platform)
     tail = stderr[-1800:]
     m = re.search(r"RSGUEST-MEM-ERROR kind=(\S+) ([^\n]*)", stderr)
@@ -210,6 +214,8 @@ def classify_crash(rc, stderr, platform):
             k = "double-free"
         else:
             k = "ub-" + re.sub(r"[^a-z]+", "-", low)[:40].strip("-")
+        if fixed_list_import and k in ("use-after-free", "oob", "uninit-read"):
+            return "violation", SIG_FIXED_LIST_UAF, "Miri: %s during %s\n%s" % (msg[:300], where, tail)
         fk = frame_kind(stderr.split("Undefined Behavior", 1)[1])
         if fk == "unknown-frame" and ctx.get("phase") == "lift-result":
             fk = "host-lift-of-guest-memory"  # the host followed a pointer the guest returned
@@ -228,6 +234,8 @@ def classify_crash(rc, stderr, platform):
         return "inconclusive", None, "Miri: unsupported operation %s (%s)" % (m.group(1)[:200] if m else "", where)
     if rc is not None and rc < 0:
         sig = {-11: "sigsegv", -6: "sigabrt", -7: "sigbus", -4: "sigill", -8: "sigfpe"}.get(rc, "signal%d" % -rc)
+        if fixed_list_import and ctx.get("phase") == "call":
+            return "violation", SIG_FIXED_LIST_UAF, "the process died with %s during %s\n%s" % (sig, where, tail[-600:])
         if ctx.get("phase") in ("call", "post-return", "lift-result"):
             return "violation", "rust-mem:crash-%s:%s:%s" % (sig, d, shape), "the process died with %s during %s\n%s" % (sig, where, tail[-600:])
         return "inconclusive", None, "the process died with %s outside a guest call (%s)" % (sig, where)
@@ -356,6 +364,12 @@ def run_pipeline(prop, mode, tier, seed, replay=None):
                 jobs.append((n, "native-x86_64-" + prof, cmd, out, 900, None, None))
         # Miri shard: smallest worlds first (interpretation is ~1000x slower)
         miri_names = sorted(runnable, key=lambda n: worlds[n].get("counts", {}).get("bindings_bytes", 0))
+        if mode == "values":
+            # the directed world for the known fixed-length-list defect goes under Miri at every seed
+            corp = [n for n in runnable if str(worlds[n].get("origin", "")).startswith("directed")]
+            miri_names = corp + [n for n in miri_names if n not in corp]
+            if not replay:
+                P["miri_worlds"] += len(corp)
         if mode == "resources":
             # the hand-written world with every handle position always goes under Miri
             corp = [n for n in runnable if str(worlds[n].get("origin", "")).startswith("corpus")]
@@ -399,7 +413,13 @@ def run_pipeline(prop, mode, tier, seed, replay=None):
                 if os.path.exists(log):
                     with open(log, errors="replace") as f:
                         txt = f.read()
+                    nflh = ((res["data"] or {}).get("extra", {}).get("counters", {}) or {}).get("import_functions_with_fixed_list_of_heap_elements", 0)
                     for kind, fk, text in valgrind_findings(txt):
+                        if nflh and kind in ("oob", "uninit-read") and "free'd" in text:
+                            # read of a block that was freed before the import was called
+                            rep.violation(SIG_FIXED_LIST_UAF, "[valgrind] %s\n%s" % (kind, text),
+                                          {"world": n, "wit": worlds[n]["wit"], "opts": worlds[n]["opts"], "platform": "valgrind-release"})
+                            continue
                         if fk == "unknown-frame":
                             rep.inconc("valgrind report without a generated/runtime frame: %s" % text[:200])
                             continue
